@@ -829,6 +829,21 @@ class CallMixin(object):
             return self.call_external(cls, args, kwargs, state, frame, node)
         mod, cd = ent
         bases = [b.split(".")[-1] for b in cd["bases"]]
+        if "NamedTuple" in bases:
+            # class Record(NamedTuple): fields...; a record value like the
+            # namedtuple(...) ones (its methods run on the record)
+            fields = self._nt_class_fields(mod, cls) or []
+            vals = {}
+            for i, a in enumerate(args):
+                if i < len(fields):
+                    vals[fields[i][0]] = a
+            for kk, v in kwargs.items():
+                vals[kk] = v
+            for (f, d) in fields:
+                if f not in vals and d is not None:
+                    vals[f] = self.fold(d, mod)
+            return [(state, ("nt", cls, tuple((f, vals.get(f, ("unknown", "nt-missing")))
+                                              for (f, _) in fields)))]
         if any(b in ("Exception",) or b.endswith("Error") for b in bases) or \
                 self.exc_matches(cls, ("Exception",)) and "__init__" not in cd["methods"]:
             return [(state, ("exc", cls, self.site(frame, node), tuple(args)))]
